@@ -1565,6 +1565,33 @@ fn separation(signers: &[Signer], n: &Notice) {
   } else {
     ctx::stat("probe.separation.other_nonce_rejected");
   }
+  // the verifier names a method of ANOTHER DID that the signer's keyAgreement merely refers to (same fragment as the
+  // signer's own #key): that id is no key material of this document, in any scope
+  let refers_elsewhere = serde_json::to_value(doc)
+    .ok()
+    .and_then(|j| j.get("keyAgreement").and_then(|a| a.as_array().cloned()))
+    .map(|a| a.iter().any(|e| e.as_str() == Some("did:sim:elsewhere#key")))
+    .unwrap_or(false);
+  if refers_elsewhere && s.fragment == "key" {
+    let foreign = identity_did::DIDUrl::parse("did:sim:elsewhere#key").unwrap();
+    let ka = MethodScope::VerificationRelationship(identity_verification::MethodRelationship::KeyAgreement);
+    for scoped in [false, true] {
+      let mut o = base().method_id(foreign.clone());
+      if scoped {
+        o = o.method_scope(ka);
+      }
+      if verify(&o).is_ok() {
+        ctx::violation(
+          "C08",
+          "C08.separation",
+          "verifies-under-foreign-method-id",
+          format!("token made for #key verifies when the verifier names did:sim:elsewhere#key (scoped: {scoped})"),
+        );
+      } else {
+        ctx::stat("probe.separation.foreign_method_id_rejected");
+      }
+    }
+  }
   // a scope that excludes the method (#key is general purpose, possibly referenced from authentication only)
   let scope = MethodScope::VerificationRelationship(identity_verification::MethodRelationship::KeyAgreement);
   if verify(&base().method_scope(scope)).is_ok() {
